@@ -102,8 +102,8 @@ type genFn func(o *Out, rng *rand.Rand, tier string)
 var gens = map[string]genFn{}
 
 func main() {
-	if len(os.Args) == 4 && os.Args[1] == "measure" {
-		measureMain(os.Args[2], os.Args[3])
+	if (len(os.Args) == 4 || len(os.Args) == 6) && os.Args[1] == "measure" {
+		measureMain(os.Args[2:]...)
 		return
 	}
 	if len(os.Args) == 5 && os.Args[1] == "climb" {
